@@ -103,6 +103,7 @@ type Shared struct {
 	// MapOrderDependent is set when the run iterated a map with more than
 	// one key (the order of the following events is then unspecified).
 	MapOrderDependent bool
+	Ticks             int64 // tick() calls so far
 }
 
 // Outcome of a reference run.
